@@ -265,3 +265,7 @@ def run(chk, facts, tier):
     c13_shortcircuit.residual_guard_kept(chk, facts)
     c13_shortcircuit.store_mode_kept(chk, facts)
     c13_shortcircuit.residual_sticky(chk, facts)
+    # every policy is evaluated and every residual is fed back: no dropping step in the authorizer loop or in reauthorize
+    from rules import shared_pipe
+    shared_pipe.check(chk, facts, "C13.PIPE", ["cedar_policy_core::authorizer::Authorizer::is_authorized_core_internal",
+                                               "cedar_policy_core::authorizer::partial_response::PartialResponse::reauthorize"], "every policy of the set / every residual policy")
